@@ -1,6 +1,7 @@
 package c09
 
 import (
+	"bytes"
 	"encoding/binary"
 	"fmt"
 	"net"
@@ -111,16 +112,30 @@ func pppoeStateName(s *pppoe.Server) string {
 }
 
 // case layout: [0] session state selector, [1] delivery: bit0 = through receiveLoop (1522-byte buffer) instead of a
-// direct call with an exact-capacity slice; bit1 = foreign source MAC; bit2 = broadcast destination; rest = payload
-// after the Ethernet header.
+// direct call with an exact-capacity slice; bit1 = foreign source MAC; bit2 = broadcast destination; [2..7] history
+// shape (srvShape; [2] = 0: the fixed prelude); rest = payload after the Ethernet header.
+const srvSel = 8
+
 func pppoeServerTarget(name string, etherType uint16, build func(*rapid.T) *bld, consts [][]byte, avoid func([]byte) []byte, avoidSigs []string) {
 	register(&target{
-		name: name, nsel: 2, avoid: avoid, avoidSigs: avoidSigs,
+		name: name, nsel: srvSel, avoid: avoid, avoidSigs: avoidSigs,
 		run: func(data []byte, c *caseInfo) {
-			sel, payload := split(data, 2)
+			sel, payload := split(data, srvSel)
 			state := int(sel[0]) % len(srvStates)
-			s := newPPPoEServer()
-			pppoePrelude(s, state)
+			sh := srvShape{sel[2], sel[3], sel[4], sel[5], sel[6], sel[7]}
+			var s *pppoe.Server
+			if sh.mode == 0 {
+				c.class("prefix:fixed")
+				s = newPPPoEServer()
+				pppoePrelude(s, state)
+			} else {
+				c.class("prefix:generated")
+				s = newPPPoEServerCfg(sh.disc&0x80 != 0)
+				if sh.disc&0x80 != 0 {
+					c.class("history:server-chap-small-pool-no-dns")
+				}
+				srvHistory(s, state, sh, c)
+			}
 			c.class("state:" + pppoeStateName(s))
 			src := ownerMAC
 			if sel[1]&2 != 0 {
@@ -171,14 +186,18 @@ func pppoeServerTarget(name string, etherType uint16, build func(*rapid.T) *bld,
 					lastGenClass += "+kf-shape"
 				}
 			}
-			return withSel(p, selByte(rt, len(srvStates), "state"), selByte(rt, 8, "delivery"))
+			st := byte(drawWeighted(rt, []int{8, 17, 17, 20, 28, 10}, "state"))
+			// most frames come from the session's owner (anything else is dropped at the MAC check)
+			dl := bits(rt, "delivery", 50, 15, 30)
+			return withSel(p, append([]byte{st, dl}, genSrvShape(rt)...)...)
 		},
 		seeds: func() [][]byte {
 			var o [][]byte
 			for _, k := range consts {
 				for st := 0; st < len(srvStates); st++ {
-					o = append(o, withSel(k, byte(st), 0), withSel(k, byte(st), 1))
+					o = append(o, withSel(k, byte(st), 0, 0, 0, 0, 0, 0, 0), withSel(k, byte(st), 1, 0, 0, 0, 0, 0, 0))
 				}
+				o = append(o, withSel(k, 4, 0, 1, 0x08, 0x40, 0x09, 0x02, 0x00), withSel(k, 4, 1, 1, 0xe6, 0x83, 0xea, 0x5c, 0x91), withSel(k, 2, 0, 1, 0x10, 0x02, 0, 0, 0))
 			}
 			return o
 		},
@@ -226,10 +245,14 @@ func init() {
 var fsmStates = []string{"Initial", "Starting", "Closed", "Stopped", "Closing", "Stopping", "Req-Sent", "Ack-Rcvd", "Ack-Sent", "Opened"}
 
 type fsm struct {
+	kind                  string
 	up, down, open, close func()
 	recv                  func([]byte) error
 	state                 func() string
-	goodReq               []byte // a Configure-Request this automaton acknowledges
+	goodReq               []byte        // a Configure-Request this automaton acknowledges
+	timeout               func() bool   // the pending restart timer expires now (false: none pending)
+	neg                   func() []string // labels of what the automaton remembers of the negotiation
+	sent                  [][]byte      // every packet the automaton sent (copies)
 }
 
 func cpPkt(code, id byte, body []byte) []byte {
@@ -288,12 +311,19 @@ func (onePool) Allocate(string) net.IP { return net.ParseIP("10.9.0.2") }
 func (onePool) Release(string)         {}
 
 func newFSM(kind string, cfgSel byte) *fsm {
-	send := func(uint16, []byte) {}
+	f := &fsm{kind: kind}
+	send := func(_ uint16, b []byte) { f.sent = append(f.sent, append([]byte(nil), b...)) }
 	log := zap.NewNop()
+	flag := func(b bool, s string) []string {
+		if b {
+			return []string{s}
+		}
+		return nil
+	}
 	switch kind {
 	case "lcp":
 		cfg := pppoe.DefaultLCPConfig()
-		cfg.RestartTimer = time.Hour // no timer fires during a case; Down() stops it at the end
+		cfg.RestartTimer = time.Hour // no timer fires by itself during a case (f.timeout delivers expiries); Down() stops it at the end
 		cfg.MagicNumber = 0x11223344
 		if cfgSel&1 != 0 {
 			cfg.AuthProtocol = pppoe.ProtocolCHAP
@@ -305,48 +335,148 @@ func newFSM(kind string, cfgSel byte) *fsm {
 		if err != nil {
 			panic("harness: " + err.Error())
 		}
-		return &fsm{m.Up, m.Down, m.Open, m.Close, m.ReceivePacket, func() string { return m.GetState().String() },
-			cpPkt(1, 7, hx("01 04 05d4 05 06 0a0b0c0d"))}
+		f.up, f.down, f.open, f.close, f.recv = m.Up, m.Down, m.Open, m.Close, m.ReceivePacket
+		f.state = func() string { return m.GetState().String() }
+		f.goodReq = cpPkt(1, 7, hx("01 04 05d4 05 06 0a0b0c0d"))
+		f.timeout = func() bool {
+			if !m.VerifC11TakeRestartTimer() {
+				return false
+			}
+			m.VerifC11Timeout()
+			return true
+		}
+		f.neg = func() []string {
+			n := m.GetNegotiatedOptions()
+			l := []string{"peer-mru-present", "peer-magic-present"}
+			if n.PeerMRU == 0 {
+				l[0] = "peer-mru-absent"
+			}
+			if n.PeerMagic == 0 {
+				l[1] = "peer-magic-absent"
+			}
+			l = append(l, flag(n.PeerPFC, "peer-pfc")...)
+			l = append(l, flag(n.PeerACFC, "peer-acfc")...)
+			l = append(l, flag(n.LocalMRU != 1492, "local-mru-nakd")...)
+			l = append(l, flag(n.AuthProtocol != 0, "auth-proto-nakd")...)
+			return append(l, flag(n.LocalMagic != 0x11223344, "local-magic-regenerated")...)
+		}
 	case "ipcp":
 		cfg := pppoe.DefaultIPCPConfig()
 		cfg.RestartTimer = time.Hour
 		cfg.LocalIP = net.ParseIP("10.9.0.1")
-		if cfgSel&1 == 0 {
+		switch {
+		case cfgSel&4 != 0:
+			// DefaultIPCPConfig as it is: no address assigned to the peer, no pool
+		case cfgSel&1 == 0:
 			cfg.PeerIP = net.ParseIP("10.9.0.2")
-		} else {
+		default:
 			cfg.IPPool = onePool{} // address assigned from a pool at Up() instead of statically
 		}
 		if cfgSel&2 != 0 {
 			cfg.PrimaryDNS, cfg.SecondaryDNS = net.ParseIP("10.9.0.1"), net.ParseIP("8.8.8.8")
 		}
 		m := pppoe.NewIPCPStateMachine(cfg, "sess-1", send, log)
-		return &fsm{m.Up, m.Down, m.Open, m.Close, m.ReceivePacket, func() string { return m.GetState().String() },
-			cpPkt(1, 7, hx("03 06 0a090002"))}
+		f.up, f.down, f.open, f.close, f.recv = m.Up, m.Down, m.Open, m.Close, m.ReceivePacket
+		f.state = func() string { return m.GetState().String() }
+		f.goodReq = cpPkt(1, 7, hx("03 06 0a090002"))
+		if cfgSel&4 != 0 {
+			f.goodReq = cpPkt(1, 7, hx("81 06 08080404")) // without an assigned address only a request that names none is acknowledged
+		}
+		f.timeout = func() bool {
+			if !m.VerifC11TakeRestartTimer() {
+				return false
+			}
+			m.VerifC11Timeout()
+			return true
+		}
+		f.neg = func() []string {
+			n := m.GetNegotiatedOptions()
+			l := []string{"peer-ip-set", "peer-dns-not-stored"}
+			if n.PeerIP == nil {
+				l[0] = "peer-ip-unset"
+			}
+			if n.PrimaryDNS != nil || n.SecondaryDNS != nil {
+				l[1] = "peer-dns-stored"
+			}
+			return append(l, flag(!n.LocalIP.Equal(net.ParseIP("10.9.0.1")), "local-ip-nakd")...)
+		}
 	default:
 		cfg := pppoe.IPV6CPConfig{LocalInterfaceID: 0x0102030405060708, MaxRetransmit: 10, RestartTimer: time.Hour}
 		m, err := pppoe.NewIPV6CPStateMachine(cfg, send, log)
 		if err != nil {
 			panic("harness: " + err.Error())
 		}
-		return &fsm{m.Up, m.Down, m.Open, m.Close, m.ReceivePacket, func() string { return m.GetState().String() },
-			cpPkt(1, 7, hx("01 0a aaaaaaaaaaaaaaaa"))}
+		f.up, f.down, f.open, f.close, f.recv = m.Up, m.Down, m.Open, m.Close, m.ReceivePacket
+		f.state = func() string { return m.GetState().String() }
+		f.goodReq = cpPkt(1, 7, hx("01 0a aaaaaaaaaaaaaaaa"))
+		f.timeout = func() bool {
+			if !m.VerifC11TakeRestartTimer() {
+				return false
+			}
+			m.VerifC11Timeout()
+			return true
+		}
+		f.neg = func() []string {
+			n := m.GetNegotiatedOptions()
+			l := []string{"peer-ifid-set"}
+			if n.PeerInterfaceID == 0 {
+				l[0] = "peer-ifid-unset"
+			}
+			return append(l, flag(n.LocalInterfaceID != 0x0102030405060708, "local-ifid-changed")...)
+		}
 	}
+	return f
 }
 
-// case layout: [0] automaton state selector, [1] configuration selector, rest = control packet.
+// case layout: [0] automaton state selector, [1] configuration selector, [2..7] negotiation shape (negShape: [2] = 0
+// selects the fixed prelude), rest = control packet.
+const fsmSel = 8
+
 func fsmTarget(name, kind string, proto int, consts [][]byte, avoid func([]byte) []byte, avoidSigs []string) {
 	register(&target{
-		name: name, nsel: 2, avoid: avoid, avoidSigs: avoidSigs,
+		name: name, nsel: fsmSel, avoid: avoid, avoidSigs: avoidSigs,
 		run: func(data []byte, c *caseInfo) {
-			sel, pkt := split(data, 2)
+			sel, pkt := split(data, fsmSel)
 			want := fsmStates[int(sel[0])%len(fsmStates)]
 			f := newFSM(kind, sel[1])
 			defer f.down() // stops the restart timer
-			f.drive(want)
+			sh := negShape{sel[2], sel[3], sel[4], sel[5], sel[6], sel[7]}
+			var st negStats
+			if sh.mode == 0 {
+				c.class("prefix:fixed")
+				f.drive(want)
+			} else {
+				c.class("prefix:" + routeNames[sh.route()])
+				f.reach(want, sh, &st)
+			}
 			got := f.state()
 			c.class("state:" + got)
 			if got != want {
 				c.class("prelude-miss")
+			}
+			// what the automaton remembers (measured on the automaton, not assumed from the script)
+			if sh.mode == 0 || st.weAcked > 0 {
+				for _, l := range f.neg() {
+					c.class("neg:" + l)
+					if got == "Opened" {
+						c.class("opened:" + l)
+					}
+				}
+			} else {
+				c.class("neg:none-acked")
+			}
+			for _, x := range []struct {
+				on bool
+				l  string
+			}{{st.weNakd > 0, "we-nakd"}, {st.weRejected > 0, "we-rejected"}, {st.peerNakd > 0, "peer-nakd-ours"}, {st.peerRejected > 0, "peer-rejected-ours"},
+				{st.timeouts > 0, "timeouts"}, {st.staleAck > 0, "stale-ack"}, {st.reneg, "renegotiated"}, {st.peerFirst, "peer-first"},
+				{st.weNakd+st.weRejected+st.peerNakd+st.peerRejected > 0, "nak-or-reject-before-ack"}} {
+				if x.on {
+					c.class("shape:" + x.l)
+					if got == "Opened" {
+						c.class("opened:after-" + x.l)
+					}
+				}
 			}
 			c.nt = len(pkt) >= 4 && int(binary.BigEndian.Uint16(pkt[2:4])) <= len(pkt)
 			if c.nt {
@@ -369,18 +499,33 @@ func fsmTarget(name, kind string, proto int, consts [][]byte, avoid func([]byte)
 					lastGenClass += "+kf-shape"
 				}
 			}
-			return withSel(p, selByte(rt, len(fsmStates), "state"), selByte(rt, 4, "cfg"))
+			st := byte(drawWeighted(rt, fsmStateWeights, "state"))
+			ncfg := 4
+			if kind == "ipcp" {
+				ncfg = 8
+			}
+			return withSel(p, append([]byte{st, selByte(rt, ncfg, "cfg")}, genShape(rt, kind)...)...)
 		},
 		seeds: func() [][]byte {
 			var o [][]byte
 			for _, k := range consts {
 				for st := range fsmStates {
-					o = append(o, withSel(k, byte(st), 0))
+					o = append(o, withSel(k, byte(st), 0, 0, 0, 0, 0, 0, 0))
+				}
+				// the same packets behind generated negotiations that end in Opened / Ack-Sent / Stopping
+				for i, sh := range fsmSeedShapes {
+					o = append(o, withSel(k, append([]byte{[]byte{9, 9, 8, 5}[i%4], byte(i)}, sh...)...))
 				}
 			}
 			return o
 		},
 	})
+}
+
+// shapes behind the seed-corpus packets (mode, mask, variant, order, resp, id): a peer that names no MRU, one that
+// asks for everything, a Nak/Reject exchange in both directions with timeouts, a renegotiated second life
+var fsmSeedShapes = [][]byte{
+	{1, 0x02, 0x00, 0, 0x00, 1}, {1, 0x7f, 0x01, 5, 0x23, 7}, {2, 0x03, 0x04, 1, 0x2b, 2}, {3, 0x31, 0x82, 2, 0xa1, 250},
 }
 
 const sigEcho = "C09/lcp-fsm/panic/pppoe.(*LCPStateMachine).receiveEchoRequest/slice-bounds"
@@ -419,26 +564,106 @@ func init() {
 var authStates = []string{"None", "Pending", "Success"}
 
 // case layout: [0] authenticator state selector, [1] protocol number selector (0 = the configured one,
-// 1 = the other auth protocol, 2 = an unsupported protocol), rest = authentication packet.
+// 1 = the other auth protocol, 2 = an unsupported protocol), [2..5] history shape ([2] = 0: the fixed prelude),
+// rest = authentication packet.
+//
+// Generated history ([2] != 0): [3] bits0-1 number of earlier exchanges, bits2-4 / bits5-7 length classes of the
+// peer-id (CHAP: name) and the password (CHAP: response value) of those exchanges; [4] bits0-1 re-authentication
+// challenges sent after a success (CHAP), bit2 the first answer carries a stale identifier, bit3 a packet of the other
+// authentication protocol came first, bits4-7 identifier base; [5] rotates the length classes between exchanges.
+const authSel = 6
+
+var (
+	authIDLens = []int{5, 0, 1, 16, 64, 255, 7, 32}
+	authPwLens = []int{6, 0, 1, 16, 64, 255, 8, 100}
+)
+
+func authHistory(a *pppoe.Authenticator, proto uint16, sel []byte, sent *[][]byte, c *caseInfo) {
+	n := int(sel[3] & 3)
+	fill := func(n int, b byte) []byte { return bytes.Repeat([]byte{b}, n) }
+	chapID := func() byte { // identifier of the latest challenge
+		for i := len(*sent) - 1; i >= 0; i-- {
+			if p := (*sent)[i]; len(p) >= 2 && p[0] == 1 {
+				return p[1]
+			}
+		}
+		return 1
+	}
+	if sel[4]&8 != 0 {
+		// a peer that answers with the protocol that was not negotiated
+		other := proto ^ (pppoe.ProtocolPAP ^ pppoe.ProtocolCHAP)
+		_ = a.ReceivePacket(other, clip(cpPkt(1, 1, append([]byte{3}, "bob\x03pwd"...))))
+		c.class("history:other-protocol-first")
+	}
+	for i := 0; i < n; i++ {
+		il := authIDLens[(int(sel[3]>>2&7)+i*int(sel[5]&7))%len(authIDLens)]
+		pl := authPwLens[(int(sel[3]>>5&7)+i*int(sel[5]>>3&7))%len(authPwLens)]
+		id := sel[4]>>4 + byte(i)
+		if proto == pppoe.ProtocolPAP {
+			body := append(append([]byte{byte(il)}, fill(il, 'u')...), byte(pl))
+			_ = a.ReceivePacket(proto, clip(cpPkt(1, id, append(body, fill(pl, 'p')...))))
+		} else {
+			id = chapID()
+			if i == 0 && sel[4]&4 != 0 {
+				_ = a.ReceivePacket(proto, clip(cpPkt(2, id+7, append(append([]byte{16}, fill(16, 0xcc)...), "stale"...))))
+				c.class("history:stale-identifier-first")
+			}
+			vl := []int{16, 16, 0, 1, 49, 255, 16, 20}[pl%8]
+			_ = a.ReceivePacket(proto, clip(cpPkt(2, id, append(append([]byte{byte(vl)}, fill(vl, 0xcc)...), fill(il, 'u')...))))
+		}
+	}
+	if proto == pppoe.ProtocolCHAP && a.GetState() == pppoe.AuthStateSuccess {
+		for k := int(sel[4] & 3); k > 0; k-- {
+			_ = a.SendReauthChallenge() // periodic re-authentication: a new challenge is outstanding in state Success
+			c.class("history:reauth-challenge-outstanding")
+		}
+	}
+}
+
 func authTarget(name string, proto uint16, build func(*rapid.T) *bld, good []byte, consts [][]byte) {
 	register(&target{
 		name:  name,
 		group: "auth", // both targets can reach receivePAP and receiveCHAP (a peer may answer with the other protocol)
-		nsel:  2, avoid: fixAuthLen, avoidSigs: []string{sigPAP, sigCHAP},
+		nsel:  authSel, avoid: fixAuthLen, avoidSigs: []string{sigPAP, sigCHAP},
 		run: func(data []byte, c *caseInfo) {
-			sel, pkt := split(data, 2)
+			sel, pkt := split(data, authSel)
 			cfg := pppoe.DefaultAuthConfig()
 			cfg.Protocol = proto
-			a := pppoe.NewAuthenticator(cfg, nil, func(uint16, []byte) {}, zap.NewNop())
+			var sent [][]byte
+			a := pppoe.NewAuthenticator(cfg, nil, func(_ uint16, b []byte) { sent = append(sent, append([]byte(nil), b...)) }, zap.NewNop())
 			a.SetOnAuthComplete(func(*pppoe.AuthResult) {})
 			st := int(sel[0]) % len(authStates)
 			if st >= 1 {
 				_ = a.Start() // CHAP: sends challenge with identifier 1
 			}
-			if st >= 2 {
-				_ = a.ReceivePacket(proto, clip(good))
+			if sel[2] == 0 {
+				c.class("prefix:fixed")
+				if st >= 2 {
+					_ = a.ReceivePacket(proto, clip(good))
+				}
+			} else {
+				c.class("prefix:generated")
+				if st >= 2 && sel[3]&3 == 0 {
+					sel[3] |= 1 // Success needs at least one exchange
+				}
+				if st < 2 {
+					sel[3] &^= 3 // None / Pending: nothing answered yet (stray packets of the other protocol still possible)
+				}
+				authHistory(a, proto, sel, &sent, c)
 			}
 			c.class("state:" + a.GetState().String())
+			switch n := len(a.GetUsername()); {
+			case a.GetState() != pppoe.AuthStateSuccess:
+			case n == 0:
+				c.class("success:username-empty")
+			case n < 64:
+				c.class("success:username-short")
+			default:
+				c.class("success:username-long")
+			}
+			if sel[2] != 0 && a.GetState() == pppoe.AuthStateSuccess {
+				c.class(fmt.Sprintf("success:exchanges-%d", sel[3]&3))
+			}
 			p := proto
 			switch sel[1] % 3 {
 			case 1:
@@ -466,15 +691,20 @@ func authTarget(name string, proto uint16, build func(*rapid.T) *bld, good []byt
 					lastGenClass += "+kf-shape"
 				}
 			}
-			ps := rapid.SampledFrom([]byte{0, 0, 0, 0, 0, 0, 1, 2}).Draw(rt, "protoSel")
-			return withSel(p, selByte(rt, len(authStates), "state"), ps)
+			ps := pick[byte](rt, "protoSel", 0, 0, 0, 0, 0, 0, 1, 2)
+			st := byte(drawWeighted(rt, []int{15, 30, 55}, "state"))
+			if uni(rt, 5, "prefix") == 0 {
+				return withSel(p, st, ps, 0, 0, 0, 0)
+			}
+			return withSel(p, st, ps, 1, byte(uni(rt, 256, "exchanges")), byte(uni(rt, 4, "reauth"))|bits(rt, "flow", 25, 15)<<2|byte(uni(rt, 16, "idBase"))<<4, byte(uni(rt, 64, "rotate")))
 		},
 		seeds: func() [][]byte {
 			var o [][]byte
 			for _, k := range consts {
 				for st := range authStates {
-					o = append(o, withSel(k, byte(st), 0))
+					o = append(o, withSel(k, byte(st), 0, 0, 0, 0, 0))
 				}
+				o = append(o, withSel(k, 2, 0, 1, 0x05, 0x02, 0x09), withSel(k, 2, 0, 1, 0xb6, 0x14, 0x1b))
 			}
 			return o
 		},
